@@ -6,10 +6,12 @@
                            (run false = the methods as shipped at the pinned commit)
    finish                = the documented closing step: reorder_segment_groups(); optimise_segment_groups()
    init_of true / false  = component_factory("Cell", ...)  /  Cell(...) + setup_nml_cell(use_convention=False)
-   run_ok                = every operation of the sequence respects op_ok in the state it is applied to:
-                           a group id handed to add_segment / add_unbranched_segments is not one of
-                           all/soma_group/axon_group/dendrite_group and is always used with the same
-                           (use_convention, seg_type).  The proof forces this (C15_mixed_type_refuted).
+   run_ok                = every operation of the sequence respects op_ok in the state it is applied to
+                           ("one group id - one role"): a user group id handed to add_segment /
+                           add_unbranched_segments is always used with the same (use_convention, seg_type);
+                           soma_group/axon_group/dendrite_group as group_id only under the convention with their
+                           own type; "all" only under the convention; add_segment_group ids non-empty.
+                           The proof forces this (C15_mixed_type_refuted).
    Quantifiers: every finite operation sequence with any parents, fractions, group ids, types, explicit or
    automatic ids, with or without proximal point, any reorder/optimise flags.  No length bound. *)
 From Coq Require Import String List ZArith Bool.
